@@ -67,6 +67,24 @@ type S1 struct {
 	hidden int
 }
 
+// S3 .. S6 are structs with embedded structs: S3's own Label shadows the one
+// promoted from S2; in S4 the Label one level down (S2) wins over the one two
+// levels down (S5.S6), Deep is promoted from two levels down.
+type S3 struct {
+	S2
+	Label string
+	Extra int
+}
+type S6 struct {
+	Label string
+	Deep  int
+}
+type S5 struct{ S6 }
+type S4 struct {
+	S5
+	S2
+}
+
 // SetHidden exists so that the unexported field is used.
 func (s *S1) SetHidden(v int) { s.hidden = v }
 
@@ -288,6 +306,14 @@ func (v V) Build(rec *Recorder) interface{} {
 			}
 		}
 		return sv.Interface()
+	case "emb3", "pemb3": // S: own label, Z: promoted (shadowed) label
+		e := S3{S2: S2{Label: v.Z, N: 11}, Label: v.S, Extra: 12}
+		if v.K == "pemb3" {
+			return &e
+		}
+		return e
+	case "emb4": // S: label one level down, Z: label two levels down
+		return S4{S5: S5{S6{Label: v.Z, Deep: 13}}, S2: S2{Label: v.S, N: 14}}
 	case "nilptr":
 		return (*int)(nil)
 	case "nildec": // a typed nil pointer to a decimal number
